@@ -10,7 +10,8 @@ META = {
         "(set on vote, cleared on every successful rescind) - the invariant the two-party fast path and Drop rely on; R4 Drop votes when no "
         "vote is outstanding; R5 Receiver::poll registers its waker before the deciding load; R6 flags is written by nothing else, the handles "
         "are not Clone, voter i owns bit 1<<i; R7 every caller compares the result with Unanimous, leaves its loop on Unanimous and keeps its "
-        "own voted flag in step."),
+        "own voted flag in step."
+        " R10 downlink read task: taking on a consumer is followed by the test of the task's `voted` flag (and the rescind) before it waits again."),
     "does_not_decide": "weak-memory behaviour of the Relaxed orderings (needs a model checker - different family)",
 }
 
@@ -363,6 +364,26 @@ def run(ctx):
             else:
                 st = {i for i, j, p, rv, line in b.assigns() if p[0] in vl and not p[1] and rv[0] == "use" and rv[1][0] == "k" and rv[1][1].get("b") is True}
                 r.check(any(b.dominates(i, c.block) or b.dominates(c.block, i) for i in st), tag + "vote=>voted:=true", c.loc(), "the task records voted = true around vote()", "vote() without recording voted = true")
+
+    with ctx.rule("C17.R10", "T2", "downlink read task: taking on a consumer withdraws an outstanding vote before the task waits again", floor=3) as r:
+        # A vote says "I am idle". A consumer that attaches - in whatever state the link is - gives the read task work: if it has voted, the vote
+        # must be rescinded (the `voted` test) before the next wait; otherwise the write task's later vote makes the stop unanimous while a consumer
+        # is attached and being served.
+        rdt = [b for b in rt.all_bodies() if b.defpath.endswith("downlink::read_task::{closure#0}")]
+        if len(rdt) != 1:
+            raise AnchorMissing("downlink::read_task (found %d)" % len(rdt))
+        rdt = ctx.saw(rdt[0])
+        vl = voted_flags(rdt)
+        tests = {sb for sb in range(rdt.n) if rdt.term(sb)["k"] == "switch" and op_place(rdt.term(sb)["discr"]) is not None and rdt.copy_root(op_place(rdt.term(sb)["discr"])) in vl}
+        waits = {sb for sb in range(rdt.n) if rdt.term(sb)["k"] == "yield"}
+        takes = [c for c in rdt.calls if c.name == "push" and len(c.args) > 1 and op_place(c.args[1]) is not None and "DownlinkSender" in rdt.locals[op_place(c.args[1])[0]]]
+        if len(takes) < 3 or not tests or not waits:
+            raise AnchorMissing("downlink read_task: consumer pushes %d, voted tests %d, waits %d" % (len(takes), len(tests), len(waits)))
+        for c in takes:
+            ok, wit = rdt.must_pass(rdt.succ[c.block], tests, targets=waits | set(rdt.exits()))
+            r.check(ok, "read_task/%s.push/vote-withdrawn-before-waiting" % describe_operand(rdt, c.args[0]), c.loc(), "after taking on the consumer the task tests `voted` (and rescinds) before it waits again",
+                    "a consumer is taken on (%s.push) and the read task waits again without testing whether it has voted (path %s): with its vote outstanding, the write task's next vote stops the "
+                    "runtime for inactivity while a consumer is attached" % (describe_operand(rdt, c.args[0]), (wit or [])[:10]))
 
     with ctx.rule("C17.R8", "T2", "a task's own inactivity timeout ends it only through a unanimous vote", floor=5) as r:
         # the first task to finish triggers the kill switch of its runtime, so a task that leaves its loop on its own timeout without
